@@ -21,7 +21,17 @@ def fresh_value(ctx, cells, addr, cache=None, **kw):
     return vals[addr]
 
 
+def _num(v):
+    """Functions that answer with a native number or truth value: the same value as the library's object."""
+    if isinstance(v, bool):
+        return ('Boolean', v)
+    if isinstance(v, (int, float)):
+        return ('Number', v)
+    return v
+
+
 def same(a, b):
+    a, b = _num(a), _num(b)
     if isinstance(a, tuple) and isinstance(b, tuple) and len(a) == len(b) == 2 and a[0] == b[0] == 'Number' \
             and isinstance(a[1], (int, float)) and isinstance(b[1], (int, float)) and not isinstance(a[1], bool) and not isinstance(b[1], bool):
         return abs(a[1] - b[1]) <= 1e-9 * max(1.0, abs(a[1]), abs(b[1]))
@@ -107,3 +117,52 @@ def constants_snapshot(wb):
     names = wb.model.f.get('defined_names')
     out['<names>'] = tuple(sorted(names)) if isinstance(names, dict) else None
     return out
+
+
+# ------------------------------------------------------------------------------------------------------------------
+# a reference workbook with several sheets (one name a prefix of another, one with an apostrophe), defined names,
+# $-variants and cross-sheet chains; the expected values are computed by hand
+# ------------------------------------------------------------------------------------------------------------------
+REF_SHEETS = {
+    'Data': {'A1': 2, 'A2': 3, 'A3': 5, 'B1': '=A1*10', 'B2': '=SUM(A1:A3)', 'B3': '=B1+B2', 'C1': "='Data 2'!B1+B1", 'C2': '=rate*2',
+             'C3': '=base+rate', 'C4': "=SUM('Data 2'!A1:A3)+SUM(A1:A3)", 'C5': "='Data 2'!C5+A1", 'C6': '=SUM($A$1:A$3)+$A2', 'C7': '=Z9+1',
+             'C8': '=COUNTA(A1:A9)'},
+    'Data 2': {'A1': 100, 'A2': 200, 'A3': 300, 'B1': '=SUM(A1:A3)', 'B2': '=A1*10', 'B3': '=Data!B3+B1', 'C1': '=Data!C1+B2', 'C5': '=B2+A2',
+               'C6': "=Data!C5+'Data 2'!A1"},
+    "It's": {'A1': 7, 'B2': "='It''s'!A1*2", 'B3': "=SUM('It''s'!A1:A1)+Data!A1", 'B4': '=$A$1+A$1+$A1', 'B5': "='Data 2'!$B$2+'It''s'!$A$1"},
+}
+REF_NAMES = {'rate': "'Data 2'!$A$2", 'base': 'Data!$A$3'}
+REF_EXPECTED = {
+    'Data!B1': 20, 'Data!B2': 10, 'Data!B3': 30, 'Data!C1': 620, 'Data!C2': 400, 'Data!C3': 205, 'Data!C4': 610, 'Data!C5': 1202, 'Data!C6': 13,
+    'Data!C7': 1, 'Data!C8': 3,
+    'Data 2!B1': 600, 'Data 2!B2': 1000, 'Data 2!B3': 630, 'Data 2!C1': 1620, 'Data 2!C5': 1200, 'Data 2!C6': 1302,
+    "It's!B2": 14, "It's!B3": 9, "It's!B4": 21, "It's!B5": 1007, 'rate': 200, 'base': 5,
+}
+
+
+def check_reference_workbook(ctx, anchor, label, why):
+    """Every formula cell of the reference workbook (loaded through the reader path), evaluated in two orders; then a second
+    workbook with the same formula texts and names bound elsewhere, compiled in the same process."""
+    n = 0
+    for oname, order in (('in written order', list(REF_EXPECTED)), ('in reverse order', list(reversed(list(REF_EXPECTED))))):
+        wb = W.Workbook(ctx, sheets=REF_SHEETS, names=REF_NAMES)
+        for addr in order:
+            got = wb.value(addr)
+            want = ('Number', REF_EXPECTED[addr])
+            n += 1
+            sheet, _, coord = addr.rpartition('!')
+            text = REF_SHEETS[sheet][coord] if sheet else f'the defined name {addr} -> {REF_NAMES[addr]}'
+            ctx.expect(same(got, want), anchor, f'{label}: {addr} = {text} ({oname})',
+                       f'{addr} ({text}) evaluates to {got!r} {oname}, expected {REF_EXPECTED[addr]}. {why}')
+    world = wb.world
+    sheets2 = {k: dict(v) for k, v in REF_SHEETS.items()}
+    sheets2['Data']['A1'] = 4
+    names2 = {'rate': 'Data!$A$1', 'base': "'Data 2'!$A$3"}
+    wb2 = W.Workbook(ctx, sheets=sheets2, names=names2, world=world)
+    for addr, want in (('Data!C2', 8), ('Data!C3', 304), ('Data!B1', 40), ('rate', 4)):
+        got = wb2.value(addr)
+        n += 1
+        ctx.expect(same(got, ('Number', want)), anchor, f'{label}: second workbook in the same process, {addr}',
+                   f'in a second workbook with the same formula texts, A1 = 4 and the names bound elsewhere (rate -> Data!A1, base -> Data 2!A3) '
+                   f'{addr} evaluates to {got!r}, expected {want}. {why}')
+    return n
